@@ -165,10 +165,20 @@ def post_output_geobox(args, kw, res, exc, snap):
     # displacement from the projected footprint: < 1 output pixel + the 0.9 source pixel buffer (expressed in output units)
     spx = max(_centre_pixel_size(src, target))
     buf = 0.9 * spx * 1.6 + 1e-9 * max(abs(fx0), abs(fy0), 1.0)
-    bx, by = (1 + tol) * rx + buf, (1 + tol) * ry + buf
+    # what the documented 0.9-source-pixel buffer amounts to on each side *in the target CRS*: the outline grown by one source pixel, densified, projected with the oracle's
+    # transformer (at 65 degrees north one 6933 pixel is many web-mercator pixels: the size of the centre pixel says nothing about the edges of a continental raster)
+    t_ = np.linspace(0, 1, 41)
+    gx = np.r_[-1 + (nx + 2) * t_, np.full(41, nx + 1.0), nx + 1 - (nx + 2) * t_, np.full(41, -1.0)]
+    gy = np.r_[np.full(41, -1.0), -1 + (ny + 2) * t_, np.full(41, ny + 1.0), ny + 1 - (ny + 2) * t_]
+    a_, b_, c_, d_, e_, f_ = gen.aff6(src.affine)
+    BX, BY = gen.transformer(src_wkt, target.proj.to_wkt()).transform(a_ * gx + b_ * gy + c_, d_ * gx + e_ * gy + f_)
+    BX, BY = np.asarray(BX)[np.isfinite(BX)], np.asarray(BY)[np.isfinite(BY)]
+    grow = [max(buf, fx0 - BX.min()) if len(BX) else buf, max(buf, BX.max() - fx1) if len(BX) else buf, max(buf, fy0 - BY.min()) if len(BY) else buf, max(buf, BY.max() - fy1) if len(BY) else buf]
+    ex_x, ex_y = (1 + tol) * rx, (1 + tol) * ry
     if isinstance(shape_req, (int, float)):
-        bx, by = bx + rx, by + ry  # square pixels: the shorter side is rounded up to a whole pixel
-    disp = max(abs(xs[0] - fx0) - bx, abs(xs[1] - fx1) - bx, abs(ys[0] - fy0) - by, abs(ys[1] - fy1) - by)
+        ex_x, ex_y = ex_x + rx, ex_y + ry  # square pixels: the shorter side is rounded up to a whole pixel
+    bx, by = ex_x + max(grow[0], grow[1]), ex_y + max(grow[2], grow[3])
+    disp = max(abs(xs[0] - fx0) - ex_x - grow[0], abs(xs[1] - fx1) - ex_x - max(grow[0], grow[1]), abs(ys[0] - fy0) - ex_y - max(grow[2], grow[3]), abs(ys[1] - fy1) - ex_y - grow[3])
     ok_disp = disp <= 0
     _mon.check(bool(ok_shape and ok_disp), "compute_output_geobox", lambda: wit({"shape_ok": ok_shape, "displacement_ok": ok_disp, "projected_footprint": [fx0, fy0, fx1, fy1],
                "result_bbox": [xs[0], ys[0], xs[1], ys[1]], "allowed": [bx, by]}), key="output-shape" if not ok_shape else "output-displaced", cls=cls + ("|int" if isinstance(shape_req, (int, float)) else ""),
